@@ -540,7 +540,7 @@ impl<'a> Gen<'a> {
                                 let mut b = tf.block.clone();
                                 rules::strip_logging(&mut b);
                                 Rep { k: 0 }.visit_block_mut(&mut b);
-                                let got = norm(&b.to_token_stream().to_string());
+                                let got = norm(&b.to_token_stream().to_string()).replace(",)", ")");
                                 let ok = got == *expected;
                                 if !ok { eprintln!("vx: note: shape of {} is\n  {}\nexpected\n  {}", fn_path, got, expected); }
                                 self.shape_results.push((format!("{}::shape-body", fn_path), ok, props.clone(), format!("{}:{}", src, tf.sig.ident.span().start().line)));
@@ -618,7 +618,29 @@ impl<'a> Gen<'a> {
                                 }
                                 S { assoc: &assoc }.visit_item_impl_mut(imp);
                             }
-                            for ii in imp.items.drain(..) {
+                            // rule M (generic closure parameters): one specialised copy per `mono-fn` directive
+                            let mut extra: Vec<syn::ImplItemFn> = vec![];
+                            for ii in imp.items.iter() { if let syn::ImplItem::Fn(f) = ii {
+                                let opath = format!("{}::{}", tyname, f.sig.ident);
+                                for (orig, newn, maps) in &unit.mono_fns { if *orig == opath && fns.contains(&newn.split("::").last().unwrap().to_string()) {
+                                    let mut g = f.clone();
+                                    g.sig.ident = syn::Ident::new(newn.split("::").last().unwrap(), g.sig.ident.span());
+                                    g.sig.generics = Default::default();
+                                    let kept: Vec<syn::FnArg> = g.sig.inputs.iter().cloned().filter(|a| match a { syn::FnArg::Typed(pt) => !maps.iter().any(|(k, _)| pt.pat.to_token_stream().to_string() == *k), _ => true }).collect();
+                                    g.sig.inputs = kept.into_iter().collect();
+                                    struct Sub<'a> { maps: &'a [(String, String)] }
+                                    impl<'a> VisitMut for Sub<'a> { fn visit_expr_call_mut(&mut self, c: &mut syn::ExprCall) {
+                                        visit_mut::visit_expr_call_mut(self, c);
+                                        let f = c.func.to_token_stream().to_string();
+                                        if let Some((_, v)) = self.maps.iter().find(|(k, _)| *k == f) { let nf: Expr = syn::parse_str(v).unwrap(); *c.func = nf; }
+                                    } }
+                                    Sub { maps }.visit_block_mut(&mut g.block);
+                                    *self.rules.dropped.entry("M:mono-fn".into()).or_default() += 1;
+                                    extra.push(g);
+                                } }
+                            } }
+                            let all_items: Vec<syn::ImplItem> = imp.items.drain(..).chain(extra.into_iter().map(syn::ImplItem::Fn)).collect();
+                            for ii in all_items {
                                 match ii {
                                     syn::ImplItem::Fn(mut f) => {
                                         let fname = f.sig.ident.to_string();
